@@ -81,7 +81,7 @@ PROPS = {
             {"suite": "trace", "quick": (2500, "planted,linear,prio,contra,collapsed,pinned,large"), "thorough": (24000, "planted,linear,prio,contra,caps,conflict,disparity,collapsed,pinned,large")},
         ],
         "oracles": [
-            {"bin": "oracle_c05.py", "min_stats": {"systems": 0.405, "checked": 0.388, "no_constraints": 0.0631, "fully_constrained": 0.0398, "with_free_variables": 0.345, "fell_back_to_a_previous_level": 0.0239}, "python": True, "quick": ("{seed}", "4000"), "thorough": ("{seed}", "20000")},
+            {"bin": "oracle_c05.py", "min_stats": {"systems": 0.405, "checked": 0.388, "no_constraints": 0.0631, "fully_constrained": 0.0398, "with_free_variables": 0.345, "fell_back_to_a_previous_level": 0.0239, "with_many_unmentioned_variables": 0.02}, "python": True, "quick": ("{seed}", "4000"), "thorough": ("{seed}", "20000")},
         ],
         "partial": ["dof_spec is about exact real arithmetic under the SvdSpec contract and the two gap hypotheses (the property's own 'well-separated cases only'); that faer's f64 SVD meets the contract is checked as a certificate (V orthogonal, VtJtJV = diag sigma^2, sigma sorted) on every recorded trace, and the float thresholds on borderline spectra are outside the statement",
                     "tied to the solver's outcome by Real/DofEntry.lean: underconstrained_is_nullspace_participation - for a successful solveWithPriority with analysis the reported list is exactly {j | some null vector of the analysed Jacobian has a non-zero j-th component}, under the SVD contract for the matrix actually analysed; the analysed Jacobian (LastRound) is the assembled Jacobian of the requests of priority <= the solved priority at the point the last executed round STARTED from: the returned point after a residual-test stop, the point one step earlier after a step-size stop (lastJac_is_before_last_step is a concrete run where the two Jacobians differ) - the difference is below the step tolerance"],
@@ -230,7 +230,7 @@ PROPS = {
             {"suite": "text", "quick": (800, 2400), "thorough": (10000, 60000)},
         ],
         "oracles": [
-            {"bin": "oracle_c09_deep", "quick": ("100000", "1000000"), "thorough": ("1000000", "8000000"), "expect_stdout": "DEEP-OK"},
+            {"bin": "oracle_c09_deep", "min_stats": {"non_ascii_positions": 0.004}, "quick": ("100000", "1000000"), "thorough": ("1000000", "8000000"), "expect_stdout": "DEEP-OK"},
         ],
         "partial": ["parser_total proves that the *grammar* terminates on every string; the stack depth and running time of the Rust parser are runtime behaviour, observed by running deep / long inputs in a child process",
                     "strictness at the problem level (Proofs/TextStrict2.lean): strict_labels / undeclared_rejected (every label of every instruction, all 23 forms incl. line(..), resolves in an accepted text; otherwise a textual error naming an undeclared reference, rejected_names_culprit), buildVars_isOk_iff (accepted iff the guessed keys are exactly the declared ones, no duplicates among the declared), accepted_iff_text, rejection_kinds (every rejection is missingGuess, unusedGuesses or undefinedPoint); the problem-level label statement was false of model and code before fix 2942897 (finding F19). Not covered by 'nothing the user wrote is silently ignored': two guesses for the same label are accepted and the last one wins (amFromList_find?; HashMap::extend in executor.rs) - recorded as an observation, the property's three rejection clauses do not name it"],
